@@ -133,6 +133,7 @@ def run_path(src, reg, contract, fnode, fglobs, case_builder, prefix, opts):
                 ctx.ghost['alloc_limit'] = ip.call_ast(af, [params[n] for n in names], {})
                 break
             par = reg.get(par.extends) if par.extends else None
+        ctx.ghost['params'] = params
         init_copy = snapshot(dict(params))
         old = Old(snapshot(dict(params)))
         ctx.ghost['old'] = old
